@@ -72,6 +72,23 @@ DropProg == <<[t |-> "for", tag |-> "for", var |-> <<105>>, coll |-> Var(A), bod
               Bit(Var(<<102>>)), Bit(Var(<<122>>)), Bar, Ob(P(Var(A), B_size)), Bar,
               Ob(Fl(Var(<<108>>), "join", <<>>)), Bar, Ob(Fl(Fl(Var(<<108>>), "sort", <<>>), "join", <<>>)), Bar, Ob(Fl(Var(<<108>>), "first", <<>>))>>
 
+\* a typed slice wherever a value can go (most of these the reference leaves open - what an array turns into as
+\* text, say; the harness compares every realisation with the generic one, which is what C18 states)
+Bang == Lit(Str(<<33>>))
+SeqTextProbes == <<
+  Ob(Fl(Var(A), "append", <<Bang>>)), Ob(Fl(Bang, "append", <<Var(A)>>)), Ob(Fl(Var(A), "prepend", <<Bang>>)), Ob(Fl(Var(A), "upcase", <<>>)),
+  Ob(Fl(Var(A), "remove", <<Lit(Str(<<49>>))>>)), Ob(Fl(Var(A), "replace", <<Lit(Str(<<32>>)), Lit(Str(<<95>>))>>)),
+  Ob(Fl(Fl(Var(A), "split", <<Lit(Str(<<32>>))>>), "join", <<Lit(Str(<<44>>))>>)), Ob(Fl(Var(A), "truncate", <<Lit(IntV(3)), Lit(Str(<<>>))>>)),
+  Ob(Fl(Var(A), "strip", <<>>)), Ob(Fl(Var(A), "url_encode", <<>>)), Ob(Fl(Var(A), "escape", <<>>)), Ob(Fl(Var(A), "capitalize", <<>>)),
+  Ob(Fl(Var(A), "slice", <<Lit(IntV(0)), Lit(IntV(2))>>)), Ob(Fl(Var(A), "default", <<Bang>>)), Ob(Fl(Var(A), "size", <<>>)),
+  Ob(Fl(Fl(Var(A), "concat", <<Var(A)>>), "join", <<>>)), Ob(Fl(Fl(Var(A), "map", <<Lit(Str(KK))>>), "size", <<>>)),
+  Ob(Fl(Fl(Var(A), "compact", <<>>), "join", <<>>)), Ob(Fl(Fl(Var(A), "uniq", <<>>), "join", <<>>)), Ob(Fl(Fl(Var(A), "sort_natural", <<>>), "join", <<>>)),
+  Ob(Fl(Var(A), "plus", <<Lit(IntV(1))>>)), Ob(Fl(Lit(IntV(1)), "plus", <<Var(A)>>)), Ob(Fl(Fl(Var(A), "first", <<>>), "plus", <<Fl(Var(A), "last", <<>>)>>)),
+  Ob(Var(A)), Ob(Cmp("==", Var(A), Var(<<98>>))), Ob(Cmp("contains", Var(A), Lit(IntV(104)))), Ob(Cmp("<", Var(A), Var(<<98>>))),
+  Ob(Fl(Var(A), "truncatewords", <<Lit(IntV(1))>>)), Ob(Fl(Var(A), "newline_to_br", <<>>)), Ob(Fl(Var(A), "strip_html", <<>>))
+>>   \* (json and inspect are debugging aids that show the Go structure: not probed)
+SeqReprs == {"", "ints", "int64s", "int32s", "int16s", "int8s", "uints", "uint16s", "uint32s", "uint64s", "float64s", "array2", "drop", "ptr"}
+
 \* ------------------------------------------------------------------ cases
 \* a repr assignment is a function from binding-tree paths to representation names
 H(p, r) == IF r = "" THEN <<>> ELSE (p :> r)
@@ -81,6 +98,7 @@ Cases ==
   \cup [g : {"numf"}, xr : 1..Len(IntWidths), fr : 1..Len(FloatWidths)]
   \cup [g : {"flt"}, xr : 1..Len(FloatWidths), d : BOOLEAN]
   \cup [g : {"seq"}, r : {"", "ints", "array3", "drop", "ptr"}, er : {"", "drop", "int8", "uint16"}]
+  \cup [g : {"seqtext"}, r : SeqReprs \ {""}, p : 1..Len(SeqTextProbes)]
   \cup [g : {"strseq"}, r : {"", "strings", "array3", "drop"}, er : {"", "drop"}]
   \* membership: every sequence representation x every width of the needle
   \cup [g : {"member"}, r : {"", "ints", "int64s", "int8s", "float64s", "array3", "drop"}, xr : 1..(Len(IntWidths) + 2), xv : {2, 5}]
@@ -97,6 +115,7 @@ MemberProg == <<Bit(Cmp("contains", Var(A), Var(X))), Bit(Cmp("contains", Var(A)
                    whens |-> <<[vals |-> <<Var(X)>>, body |-> <<T(<<116>>)>>], [else |-> TRUE, vals |-> <<>>, body |-> <<T(<<101>>)>>]>>]>>
 ProgOf(x) ==
   CASE x.g = "member" -> MemberProg
+    [] x.g = "seqtext" -> <<SeqTextProbes[x.p]>>
     [] x.g \in {"num", "numf"} -> NumProg [] x.g = "flt" -> FltProg [] x.g = "seq" -> SeqProg [] x.g = "strseq" -> StrSeqProg
     [] x.g = "map" -> MapProg [] x.g = "bytes" -> BytesProg [] x.g = "ptr" -> PtrProg [] x.g = "drop" -> DropProg
 M1(k, v) == MapV(<< <<k, v>> >>)
@@ -106,6 +125,7 @@ EnvOf2(x) ==
     [] x.g = "numf" -> << <<X, IntV(2)>>, <<Y, Flt(2, 1)>>, <<A, Arr(<<IntV(7), IntV(2)>>)>> >>
     [] x.g = "flt" -> << <<X, Flt(5, 2)>> >>
     [] x.g = "seq" -> << <<A, Arr(<<IntV(3), IntV(1), IntV(2)>>)>>, <<<<98>>, Arr(<<IntV(3), IntV(1), IntV(2)>>)>> >>
+    [] x.g = "seqtext" -> << <<A, Arr(<<IntV(104), IntV(105)>>)>>, <<<<98>>, Arr(<<IntV(104), IntV(105)>>)>> >>
     [] x.g = "strseq" -> << <<A, Arr(<<Str(<<99>>), Str(<<97>>), Str(<<98>>)>>)>> >>
     [] x.g = "map" -> << <<M, MapV(<< <<JJ, IntV(4)>>, <<KK, IntV(1)>> >>)>> >>
     [] x.g = "bytes" -> << <<S0, Str(<<104, 195, 169, 108, 108, 111>>)>> >>
@@ -119,6 +139,7 @@ ReprOf(x) ==
     [] x.g = "flt" -> IF x.d THEN ("x" :> "drop") ELSE H("x", FloatWidths[x.xr])
     [] x.g = "seq" -> H("a", x.r) @@ (IF x.r \in {"", "array3", "drop", "ptr"} THEN H("a/1", x.er) ELSE <<>>)
                       @@ (IF x.r \in {"ints"} THEN <<>> ELSE H("b", x.r))
+    [] x.g = "seqtext" -> H("a", x.r)
     [] x.g = "strseq" -> H("a", x.r) @@ (IF x.r \in {"", "array3", "drop"} THEN H("a/0", x.er) ELSE <<>>)
     [] x.g = "map" -> H("m", x.r) @@ (IF x.r # "mapint" THEN H("m/k", x.er) ELSE <<>>)
     [] x.g = "bytes" -> H("s", x.r)
@@ -131,7 +152,7 @@ Init == c \in Cases
 Next == UNCHANGED vars
 Ref == Render(Cx0, ProgOf(c), EnvOf(EnvOf2(c)))
 \* the reference decides every family (otherwise the comparison would be vacuous)
-ReferenceDecides == Ref.status = "ok"
+ReferenceDecides == c.g # "seqtext" => Ref.status = "ok"
 
-EmitCase == PrintT(ToJson([id |-> ToString(c), kind |-> "render", prog |-> ProgOf(c), env |-> EnvOf2(c), repr |-> ReprOf(c), g |-> c.g]))
+EmitCase == PrintT(ToJson([id |-> ToString(c), kind |-> "render", prog |-> ProgOf(c), env |-> EnvOf2(c), repr |-> ReprOf(c), g |-> c.g, cmpown |-> TRUE]))
 =============================================================================
